@@ -466,7 +466,8 @@ def replay(case):
     res = engine.UnitResult(PROPERTY_ID)
     if case.get("spec"):
         c = adapters.Ctx(case["schema"], case["spec"])
-        sc = scopes.scope(c.model, "fmarks", case["schema"], 4)
+        nested = '"type":"chip"' in jkey(case["doc"]) or '"type":"span"' in jkey(case["doc"])
+        sc = scopes.scope(c.model, "fmarks_c" if nested else "fmarks", case["schema"], 5 if nested else 4)
         marks = family_marks()
     else:
         c = adapters.ctx(case["schema"])
